@@ -25,6 +25,8 @@ DimsOf(v) == Dims(CompoundOf(v.u))
 Decidable(v) == v.k = "val" /\ KnownKeys(v.u) /\ ~HasOffset(CompoundOf(v.u))
 Check(r) ==
   IF r.lhs.k = "err" /\ r.rhs.k = "err" THEN [inst |-> FALSE, problems |-> <<>>]
+  \* a / a for a = 0 is a division by zero, not an instance of the law
+  ELSE IF r.law = "div-self" /\ r.lhs.k = "err" /\ Decidable(r.rhs) /\ RZero(SIOf(r.rhs)) THEN [inst |-> FALSE, problems |-> <<>>]
   ELSE IF r.lhs.k = "err" \/ r.rhs.k = "err" THEN [inst |-> TRUE, problems |-> <<"one-side-fails">>]
   ELSE IF ~Decidable(r.lhs) \/ ~Decidable(r.rhs) THEN [inst |-> FALSE, problems |-> <<>>]
   ELSE LET l == SIOf(r.lhs)
